@@ -114,7 +114,7 @@ var props = []PropSpec{
 			"UDP flavour runs with a clock on which no time passes (template lifetime is C10)",
 		}, codecAssumptions...),
 		Harnesses: []HarnessSpec{
-			{Func: "Check_History", Reach: []string{"bad-template", "data-rejected", "data-decoded-A", "data-decoded-B", "data-decoded-C", "final"},
+			{Func: "Check_History", Reach: []string{"bad-template", "data-rejected", "data-decoded-A", "data-decoded-B", "data-decoded-C", "data-decoded-S", "final"},
 				Bounds: "histories of k = 3 (quick) / 4 (thorough) messages, each one of {template A, template B (same record size, different shape), bad template (cut short after id / unknown element in strict mode), data}; the (observation domain, template id) of every message is symbolic, so all aliasing patterns are explored by the solver; tcp and udp flavours"},
 		},
 	},
